@@ -4,8 +4,8 @@ import copy
 from ..core.shrink import list_removals
 from . import gen, ir
 
-ALL_EDITS = ["var", "ver", "comment", "lit", "rtx", "default", "unrelated", "reorder", "ext", "move", "respell", "path", "lzver"]
-INSIDE_EDITS = ["var", "ver", "comment", "lit", "rtx", "default", "lzver"]
+ALL_EDITS = ["var", "ver", "comment", "lit", "rtx", "default", "unrelated", "reorder", "ext", "move", "respell", "path", "lzver", "tmpl"]
+INSIDE_EDITS = ["var", "ver", "comment", "lit", "rtx", "default", "lzver", "tmpl"]
 OUTSIDE_EDITS = ["unrelated", "reorder", "ext", "move", "respell"]
 
 
@@ -110,6 +110,10 @@ def gen_history(streams, tier, profile):
             if e is None and feat.get("vardefaults") and "var" in profile["edits"] and hrng.random() < 0.4:
                 e = gen.gen_edit(hrng, cur, ["var"])
                 if e["kind"] != "var":
+                    e = None
+            if e is None and feat.get("tmpl") and "tmpl" in profile["edits"] and hrng.random() < 0.4:
+                e = gen.gen_edit(hrng, cur, ["tmpl"])
+                if e["kind"] != "tmpl":
                     e = None
             if e is None and feat.get("lazy") and "lzver" in profile["edits"] and hrng.random() < 0.4:
                 e = gen.gen_edit(hrng, cur, ["lzver"])
@@ -351,7 +355,9 @@ def feature_tags(case):
         if f.get("ret", "tuple") != "tuple":
             t.add("ret:" + f["ret"])
         if f.get("pathform", "lit") != "lit":
-            t.add("pathform:var")
+            t.add("pathform:" + f["pathform"])
+        if f.get("tmpl"):
+            t.add("tmpl:" + f["tmpl"].get("style", "triple"))
         for (n, d) in f["params"]:
             if ir.default_var(d):
                 t.add("default")
@@ -370,7 +376,7 @@ def feature_tags(case):
             if it.get("multiline"):
                 t.add("multiline")
             if it.get("pathform", "lit") != "lit":
-                t.add("pathform:var")
+                t.add("pathform:" + it["pathform"])
             for a in it.get("args", []):
                 t.add("arg:" + a["k"])
             if it.get("wrap"):
@@ -379,6 +385,8 @@ def feature_tags(case):
                 t.add("join")
             if it.get("pspell"):
                 t.add("pathspell:" + it["t"])
+            if it.get("thread"):
+                t.add("load:thread")
             if it.get("rtarg") is not None:
                 t.add("call:rtarg")
             if it["t"] == "eval" and it.get("spell", "dds") != "dds":
